@@ -10,7 +10,16 @@ Line-protocol front end of the C11 model (requests after the leading `C11` field
   config <without> <host> <dflt> <mods> <back> <denies> <ovs> <accesses>
                                              → final Impl state, per-deny / per-override Spec verdicts, access outcomes
   shared <ids> <ids> <exempt>                → identities two configs have in common
+  optcfg <dflt> <mods> <back> <opts> <rev> <accesses>
+                                             → like `config`, but the Config fields are folded from the OPTION SEQUENCE by
+                                               Model.applyOpts (rev = 1: both Go maps iterated in reverse); per-deny /
+                                               per-override items are prefixed with the name
+  optspec <opts> <bindings>                  → Model.allowedTop for each `xname=id|n` (final binding of a top-level name)
+  vmseq  <mods> <back> <tables> <evals>      → evaluations on ONE reused VM (Model.vmEval = vmBegin / vmAccess): tables joined by `/`,
+                                               eval item `k~access`; per evaluation `impl:spec`
 
+Option item: `g;xname;id` (WithGlobal), `d;xname` (WithoutGlobal), `o;xname;id` (WithGlobalOverride), `n`
+(WithoutDefaultGlobals).
 Lists: items joined by `,`, `-` = empty.  Names are `x` + lowercase hex of the bytes.
 table item `xname=id`; mods item `id:table` joined by `|`; edge `src>dst>label`;
 access item `i;xname;xattr;…` (identifier first) or `m;…` (import first).
@@ -106,37 +115,125 @@ def bit (b : Bool) : String := if b then "1" else "0"
 
 def joinOr (xs : List String) : String := if xs.isEmpty then "-" else ",".intercalate xs
 
+/-- the reply shared by `config` and `optcfg`: `denies`/`ovs` carry the name they came from -/
+def configReply (st0 : St) (denies : List (Name × List Name)) (ovs : List (Name × List Name × Id))
+    (accs : List (Bool × Name × List Name)) (named : Bool) : String :=
+  let dl := denies.map (·.2)
+  let ol := ovs.map fun x => (x.2.1, x.2.2)
+  let impl := initCfg st0 dl ol
+  let spec := initSpec st0 dl ol
+  let gi := graphOf impl
+  let gs := graphOf spec
+  let ri := reach gi [root]
+  let rs := reach gs [root]
+  let pre (n : Name) := if named then showName n ++ ":" else ""
+  let dOut := denies.map fun np =>
+    let p := np.2
+    let t := target st0 p
+    let r := match t with
+      | some t => bit (ri.contains t) ++ ":" ++ bit (rs.contains t)
+      | none => "0:0"
+    pre np.1 ++ showOpt t ++ ":" ++ r ++ ":" ++ bit (deepName p)
+  let oOut := ovs.map fun npv =>
+    let pv := npv.2
+    let t := target st0 pv.1
+    let r := match t with
+      | some t => bit (ri.contains t && t != pv.2)
+      | none => "0"
+    -- what a script obtains under exactly this name in the final Impl / Spec state
+    let seen (s : St) := match pv.1 with
+      | [] => none
+      | f :: a => access s false f a
+    pre npv.1 ++ showOpt t ++ ":" ++ r ++ ":" ++ showOpt (seen impl) ++ ":" ++ showOpt (seen spec) ++ ":" ++ bit (deepName pv.1)
+  let aOut := accs.map fun a => showOpt (access impl a.1 a.2.1 a.2.2)
+  "ok\t" ++ showTable impl.globals ++ "\t" ++ showMods impl.mods ++ "\t" ++ joinOr dOut ++ "\t" ++
+    joinOr oOut ++ "\t" ++ joinOr aOut ++ "\t" ++ bit (decide (impl = spec))
+
+def parseDenyNames (s : String) : Option (List Name) := (items s).mapM parseName
+
+def parseOvNames (s : String) : Option (List (Name × Id)) :=
+  (items s).mapM fun it =>
+    match it.splitOn "=" with
+    | [k, v] => do
+      let k ← parseName k
+      let v ← v.toNat?
+      pure (k, v)
+    | _ => none
+
 def handleConfig (without host dflt mods back denies ovs accs : String) : String :=
   match parseTable host, parseTable dflt, parseMods mods, parseBack back,
-        parseDenies denies, parseOvs ovs, parseAccesses accs with
+        parseDenyNames denies, parseOvNames ovs, parseAccesses accs with
   | some host, some dflt, some mods, some back, some denies, some ovs, some accs =>
     let st0 : St := ⟨mergeDefaults (without == "1") host dflt, mods, back⟩
-    let impl := initCfg st0 denies ovs
-    let spec := initSpec st0 denies ovs
-    let gi := graphOf impl
-    let gs := graphOf spec
-    let ri := reach gi [root]
-    let rs := reach gs [root]
-    let dOut := denies.map fun p =>
-      let t := target st0 p
-      let r := match t with
-        | some t => bit (ri.contains t) ++ ":" ++ bit (rs.contains t)
-        | none => "0:0"
-      showOpt t ++ ":" ++ r ++ ":" ++ bit (deepName p)
-    let oOut := ovs.map fun pv =>
-      let t := target st0 pv.1
-      let r := match t with
-        | some t => bit (ri.contains t && t != pv.2)
-        | none => "0"
-      -- what a script obtains under exactly this name in the final Impl / Spec state
-      let seen (s : St) := match pv.1 with
-        | [] => none
-        | f :: a => access s false f a
-      showOpt t ++ ":" ++ r ++ ":" ++ showOpt (seen impl) ++ ":" ++ showOpt (seen spec) ++ ":" ++ bit (deepName pv.1)
-    let aOut := accs.map fun a => showOpt (access impl a.1 a.2.1 a.2.2)
-    "ok\t" ++ showTable impl.globals ++ "\t" ++ showMods impl.mods ++ "\t" ++ joinOr dOut ++ "\t" ++
-      joinOr oOut ++ "\t" ++ joinOr aOut ++ "\t" ++ bit (decide (impl = spec))
+    configReply st0 (denies.map fun n => (n, splitName n)) (ovs.map fun kv => (kv.1, splitName kv.1, kv.2)) accs false
   | _, _, _, _, _, _, _ => "error\tbad-config-request"
+
+def parseOpt (s : String) : Option Opt :=
+  match s.splitOn ";" with
+  | ["g", n, v] => do
+    let n ← parseName n
+    let v ← v.toNat?
+    pure (.withGlobal n v)
+  | ["d", n] => (parseName n).map .without
+  | ["o", n, v] => do
+    let n ← parseName n
+    let v ← v.toNat?
+    pure (.override n v)
+  | ["n"] => some .noDefaults
+  | _ => none
+
+def parseOpts (s : String) : Option (List Opt) := (items s).mapM parseOpt
+
+def handleOptCfg (dflt mods back opts rev accs : String) : String :=
+  match parseTable dflt, parseMods mods, parseBack back, parseOpts opts, parseAccesses accs with
+  | some dflt, some mods, some back, some opts, some accs =>
+    let c := applyOpts opts
+    let ds := if rev == "1" then c.denylist.reverse else c.denylist
+    let os := if rev == "1" then c.overrides.reverse else c.overrides
+    let st0 : St := ⟨mergeDefaults c.noDefaults c.globals dflt, mods, back⟩
+    -- configReply folds exactly Model.initFrom / initFromSpec c dflt mods back ds os
+    configReply st0 (ds.map fun n => (n, splitDots n)) (os.map fun kv => (kv.1, splitDots kv.1, kv.2)) accs true ++
+      "\t" ++ bit c.noDefaults
+  | _, _, _, _, _ => "error\tbad-optcfg-request"
+
+def parseBindings (s : String) : Option (List (Name × Option Id)) :=
+  (items s).mapM fun it =>
+    match it.splitOn "=" with
+    | [k, v] => do
+      let k ← parseName k
+      if v == "n" then pure (k, none) else do
+        let v ← v.toNat?
+        pure (k, some v)
+    | _ => none
+
+def handleOptSpec (opts bs : String) : String :=
+  match parseOpts opts, parseBindings bs with
+  | some opts, some bs =>
+    "ok\t" ++ joinOr (bs.map fun nb =>
+      bit (allowedTop opts nb.1 nb.2) ++ ":" ++ showOpt (lastOverride opts nb.1) ++ ":" ++
+        bit (deniedIn opts nb.1) ++ ":" ++ showOpt (hostAfterDeny opts nb.1) ++ ":" ++ bit (undotted nb.1))
+  | _, _ => "error\tbad-optspec-request"
+
+def parseEvals (s : String) : Option (List (Nat × Bool × Name × List Name)) :=
+  (items s).mapM fun it =>
+    match it.splitOn "~" with
+    | [k, a] => do
+      let k ← k.toNat?
+      match ← parseAccesses a with
+      | [acc] => pure (k, acc)
+      | _ => none
+    | _ => none
+
+def handleVmSeq (mods back tables evals : String) : String :=
+  match parseMods mods, parseBack back, (tables.splitOn "/").mapM parseTable, parseEvals evals with
+  | some mods, some back, some tables, some evals =>
+    let step (acc : VM × List String) (ev : Nat × Bool × Name × List Name) : VM × List String :=
+      let g := tables.getD ev.1 []
+      let r := vmEval mods back acc.1 g ev.2.1 ev.2.2.1 ev.2.2.2
+      let spec := access ⟨g, mods, back⟩ ev.2.1 ev.2.2.1 ev.2.2.2
+      (r.1, acc.2 ++ [showOpt r.2 ++ ":" ++ showOpt spec])
+    "ok\t" ++ joinOr (evals.foldl step (VM.empty, [])).2
+  | _, _, _, _ => "error\tbad-vmseq-request"
 
 def handle : List String → String
   | ["universe"] => joinOr (Risor.Generated.C11.attrUniverse.map fun n => showName (strBytes n))
@@ -152,6 +249,9 @@ def handle : List String → String
     | _, _, _ => "error\tbad-reach-request"
   | ["config", without, host, dflt, mods, back, denies, ovs, accs] =>
     handleConfig without host dflt mods back denies ovs accs
+  | ["optcfg", dflt, mods, back, opts, rev, accs] => handleOptCfg dflt mods back opts rev accs
+  | ["optspec", opts, bs] => handleOptSpec opts bs
+  | ["vmseq", mods, back, tables, evals] => handleVmSeq mods back tables evals
   | ["shared", a, b, ex] =>
     match parseIds a, parseIds b, parseIds ex with
     | some a, some b, some ex => "ok\t" ++ joinOr ((sharedIds a b ex).map toString)
